@@ -762,6 +762,13 @@ def _variants(rng: random.Random, fname: str) -> list[str]:
     out = [fname] if rng.random() < 0.75 else []
     for k in ks:
         out.append(f'{stem} ({k}){ext}')
+    if rng.random() < 0.12:
+        # a long RUN of numbered duplicates (the 10th, 11th, 100th copy: the order in which a listing or a sort presents
+        # " (10)" and " (2)" is not the numeric one), sometimes with a gap or starting late
+        lo = rng.choice([1, 1, 1, 2, 5])
+        hi = lo + rng.choice([8, 9, 10, 11, 12, 20, 101])
+        gap = rng.choice([None, None, rng.randrange(lo, hi + 1)])
+        out = [fname] + [f'{stem} ({k}){ext}' for k in range(lo, hi + 1) if k != gap]
     extra = [f'{stem} (01){ext}', f'{stem} (2){ext}.bak', f'{stem} (){ext}', f'{stem} (x){ext}', f'{stem}(3){ext}',
              f'{stem} (3) copy{ext}', f'{stem} (6', f'{stem.upper()} (1){ext}', f'{stem} (1)', f'{stem} (12)']
     out += rng.sample(extra, rng.randint(0, 3))
